@@ -332,8 +332,11 @@ func init() {
 			if i%5 == 2 {
 				// kills of Jobs that were refused admission half-way: parallel Jobs whose first index runs into a
 				// foreign object on its first or second attempt while the other indexes' tasks are alive
-				prof.Parallel, prof.ForeignPct, prof.KillPct, prof.ClearKillPct, prof.DeletePct, prof.MaxRetryDelay = 100, 70, 90, 0, 0, 3
-				o.Kubelet.FailRate, o.Kubelet.MaxRun = 60, 60
+				// (one Job per case: another Job's recorded finding would put the whole case beyond judgement)
+				prof.Parallel, prof.ForeignPct, prof.KillPct, prof.ClearKillPct, prof.DeletePct, prof.MaxRetryDelay = 100, 85, 90, 0, 0, 3
+				prof.MinJobs, prof.MaxJobs, prof.ForeignOnRetry, prof.CountOnly, prof.MaxAttempts = 1, 1, true, true, 3
+				prof.KillAfter = 50
+				o.Kubelet.FailRate, o.Kubelet.MaxRun = 75, 150
 			}
 			return simCase{Opt: o, Prof: prof}
 		},
